@@ -3,6 +3,11 @@
    before bodies a blank or a line end changes nothing at all; a comment is opened by saving the interrupted state, is
    read without any event or any change but the read position, and ends by handing the line end to the interrupted
    state.  These hold for every configuration, every input and every schema-library oracle.
+   Blanks inserted where they are inert only SHIFT the lexemes (proofs/ShiftProofs.v, end of this file): for
+   data = a ++ b and data' = a ++ w ++ b, w made of space/tab/CR/LF, if the scan of data stands after a in one of the
+   11 [shift_states] with nothing pending and no lexeme open, then scan data' returns the same verdict (an error
+   position moved by |w|), the same lexemes before the insertion point and the later ones moved by |w|
+   (blanks_only_shift_lexemes; leading_blanks_only_shift for a = [], without any premise about a run).
 
    PARTIAL.  The full statement "the catalog does not change under the listed rewritings" also needs (i) invariance of
    all later stages under the SHIFT of lexeme positions that an insertion causes, (ii) the block comment "###...###" as
@@ -11,10 +16,20 @@
    kinds and on the parentheses only, never on indentation - the context model has no notion of indentation at all).
    (i) is decided by the metamorphic runs of the check (generated documents under random trivia plans; fixtures under
    text-level rewritings), not by proof - EXCEPT for context resolution and macro expansion, for which (i) and (iv)
-   are proved at the end of this file (context_ignores_coordinates, expansion_ignores_coordinates): these two stages
-   read kinds, parameters, annotations and parentheses, never positions.  Still open for (i): the stages after
-   expansion (catalog building reads bodies through their coordinates) and the scan loop itself (lexemes ->
-   directives). *)
+   are proved in this file (context_ignores_coordinates, expansion_ignores_coordinates): these two stages
+   read kinds, parameters, annotations and parentheses, never positions - and EXCEPT for the scan loop itself, now
+   closed by blanks_only_shift_lexemes.  Still open for (i): lexemes -> directives, and the stages after expansion
+   (catalog building reads bodies through their coordinates).
+   What blanks_only_shift_lexemes leaves open at the scanner level: (a) the run of the scanner on data' UP TO the
+   insertion point is a premise (it is the same run as on data unless isDirective() or the schema library looked
+   beyond the insertion point; given by computation in blanks_only_shift_lexemes_run); (b) of the 18 blank-inert
+   states, 7 are not covered: the three description-text states and the multi-line annotation (there the claim is
+   FALSE: trailing blanks belong to the text lexeme, and a blank between '*' and '/' keeps the annotation open), and
+   the four body states stateBodyBody/RequestBody/ResponseBody/TypeBody (true, but the look-back typing bounds what
+   they pop from the state stack by 1, not 0); (c) one side condition on the configuration at the insertion point
+   is a premise although it holds in every run: the remembered parameters of the last directive end before the
+   insertion point (the other one, the look-back of the states on the state stack, is proved for every run:
+   ShiftProofs.reach_stk). *)
 From Coq Require Import List NArith Bool String.
 From JV.lib Require Import Bytes.
 From JV.gen Require Import ScannerTable.
@@ -23,6 +38,7 @@ From JV.gen Require Import DirectiveTables.
 From JV.model Require Import Core.
 From JV.spec Require Import ContextSpec.
 From JV.proofs Require Import TriviaProofs ShapeProofs.
+From JV.proofs Require TM_Events TM_Loop ShiftProofs.
 Import ListNotations.
 Open Scope string_scope.
 Open Scope N_scope.
@@ -159,3 +175,109 @@ Theorem two_layouts_one_shape :
   map (fun d => c_beg (d_kw d)) (flatten (ShapeExamples.forest ShapeExamples.doc_b)) = [0; 19; 28].
 Proof. exact ShapeExamples.layouts_same_shape. Qed.
 Print Assumptions two_layouts_one_shape.
+
+(* ---- inserted blanks only shift the lexemes (proofs/ShiftProofs.v) ----
+   dist s = how many bytes state s may reach back (AFound back, ARewind n, CPrevIs), inferred from the table and checked
+   against it by evaluation; shift_states = the blank-inert states with dist 0.  On the table as it is now:
+   stateCommentBlock, stateDescriptionTextBracketsInnerNewLine, stateEnumBody, stateExpectKeyword, stateHeaderBody,
+   stateParamsBody, statePathBody, stateQueryBodyOrKeyword, stateRegexBody, stateResultBody, stateRoot. *)
+Theorem look_back_typing_fits_the_table : ShiftProofs.dist_ok = true.
+Proof. exact ShiftProofs.dist_table_ok. Qed.
+Print Assumptions look_back_typing_fits_the_table.
+
+Theorem shift_states_are_blank_inert : forall s, In s ShiftProofs.shift_states -> In s blank_inert_states /\ ShiftProofs.dist s = 0.
+Proof. intros s H. split; [apply filter_In in H; apply H | apply ShiftProofs.shift_state_dist; exact H]. Qed.
+Print Assumptions shift_states_are_blank_inert.
+
+(* the translation lemma, one call of Next(): LRel size n k pa pa' g g' = g' is g moved by k bytes (same state and
+   state stack, same text ahead, read position + k; pending events, open lexemes and remembered parameters after n
+   moved by k, those before n unchanged; the bytes read since n are the same).  If the two inputs agree on the
+   lexemes before n and, moved by k, on those after n, then Next() gives related results: the same lexeme moved by k
+   and related configurations, or the same failure with its position moved by k. *)
+Theorem next_commutes_with_shift : forall jsc enum D D' size n k pa pa',
+  (forall l, le l < n -> lex_value D' (size + k) l = lex_value D size l) ->
+  (forall l, n <= lb l -> lex_value D' (size + k) (ShiftProofs.shL k l) = lex_value D size l) ->
+  forall f g g', ShiftProofs.LRel size n k pa pa' g g' ->
+  ShiftProofs.orel k (ShiftProofs.RR size n k pa pa') (next jsc enum D size f g) (next jsc enum D' (size + k) f g').
+Proof. exact ShiftProofs.next_shift. Qed.
+Print Assumptions next_commutes_with_shift.
+
+(* ... and the scan from a configuration to the end *)
+Theorem scan_from_configuration_shifts : forall jsc enum D D' size n k pa pa',
+  (forall l, le l < n -> lex_value D' (size + k) l = lex_value D size l) ->
+  (forall l, n <= lb l -> lex_value D' (size + k) (ShiftProofs.shL k l) = lex_value D size l) ->
+  forall f g g' acc acc', ShiftProofs.LRel size n k pa pa' g g' ->
+  exists ls, fst (fst (scan_all jsc enum D size f g acc)) = (rev acc ++ ls)%list /\
+             fst (fst (scan_all jsc enum D' (size + k) f g' acc')) = (rev acc' ++ map (ShiftProofs.shL k) ls)%list /\
+             snd (fst (scan_all jsc enum D' (size + k) f g' acc')) =
+             ShiftProofs.she k (snd (fst (scan_all jsc enum D size f g acc))).
+Proof. exact ShiftProofs.scan_all_shift. Qed.
+Print Assumptions scan_from_configuration_shifts.
+
+(* whole inputs.  reach jsc enum D size g acc = the scan of D passes through configuration g having returned the
+   lexemes acc (last first): whole calls of Next() and single quiet turns of its byte loop.  The premises say: both
+   scans arrive after a in the same configuration g (but for the text ahead), g is in a shift state with nothing
+   pending and no lexeme open, has read exactly a, and its remembered parameters end before the insertion point.  Then: the lexemes returned before stay, those after are
+   moved by |w|, the verdict is the same (an error position moved by |w|). *)
+Theorem blanks_only_shift_lexemes : forall jsc enum (a w b : bytes) g acc,
+  TM_Events.len_sane jsc -> TM_Events.len_sane enum -> Forall TM_Loop.isb (a ++ b)%list ->
+  Forall (fun c => In c blank_bytes) w ->
+  ShiftProofs.reach jsc enum (a ++ b)%list (N.of_nat (List.length (a ++ b)%list)) g acc ->
+  ShiftProofs.reach jsc enum (a ++ w ++ b)%list (N.of_nat (List.length (a ++ w ++ b)%list))
+                    (set_zip g (pos g) (pre g) (w ++ b)%list) acc ->
+  pos g = N.of_nat (List.length a) -> pre g = rev a -> rest g = b -> finds g = [] -> estk g = [] ->
+  In (reg g) ShiftProofs.shift_states ->
+  Forall (fun l => le l < N.of_nat (List.length a)) (lastp g) ->
+  exists ls,
+    fst (fst (scan jsc enum (a ++ b)%list)) = (rev acc ++ ls)%list /\
+    fst (fst (scan jsc enum (a ++ w ++ b)%list)) = (rev acc ++ map (ShiftProofs.shL (N.of_nat (List.length w))) ls)%list /\
+    snd (fst (scan jsc enum (a ++ w ++ b)%list)) =
+    ShiftProofs.she (N.of_nat (List.length w)) (snd (fst (scan jsc enum (a ++ b)%list))).
+Proof. exact ShiftProofs.blank_insertion_shift_final_lemma. Qed.
+Print Assumptions blanks_only_shift_lexemes.
+
+(* the same with the two runs up to the insertion point given by computation (prefix_run: the run up to the first turn
+   of the byte loop that starts at the given position with nothing pending) *)
+Theorem blanks_only_shift_lexemes_run : forall jsc enum (a w b : bytes) g acc,
+  TM_Events.len_sane jsc -> TM_Events.len_sane enum -> Forall TM_Loop.isb (a ++ b)%list ->
+  Forall (fun c => In c blank_bytes) w ->
+  ShiftProofs.prefix_run jsc enum (a ++ b)%list (N.of_nat (List.length a)) = Some (g, acc) ->
+  ShiftProofs.prefix_run jsc enum (a ++ w ++ b)%list (N.of_nat (List.length a)) =
+    Some (set_zip g (pos g) (pre g) (w ++ b)%list, acc) ->
+  pos g = N.of_nat (List.length a) -> pre g = rev a -> rest g = b -> finds g = [] -> estk g = [] ->
+  In (reg g) ShiftProofs.shift_states ->
+  Forall (fun l => le l < N.of_nat (List.length a)) (lastp g) ->
+  exists ls,
+    fst (fst (scan jsc enum (a ++ b)%list)) = (rev acc ++ ls)%list /\
+    fst (fst (scan jsc enum (a ++ w ++ b)%list)) = (rev acc ++ map (ShiftProofs.shL (N.of_nat (List.length w))) ls)%list /\
+    snd (fst (scan jsc enum (a ++ w ++ b)%list)) =
+    ShiftProofs.she (N.of_nat (List.length w)) (snd (fst (scan jsc enum (a ++ b)%list))).
+Proof. exact ShiftProofs.blank_insertion_shift_run_final_lemma. Qed.
+Print Assumptions blanks_only_shift_lexemes_run.
+
+(* blank lines and indentation before the first directive: no premise about any run *)
+Theorem leading_blanks_only_shift : forall jsc enum (w b : bytes),
+  TM_Events.len_sane jsc -> TM_Events.len_sane enum -> Forall TM_Loop.isb b ->
+  Forall (fun c => In c blank_bytes) w ->
+  let k := N.of_nat (List.length w) in
+  fst (fst (scan jsc enum (w ++ b)%list)) = map (ShiftProofs.shL k) (fst (fst (scan jsc enum b))) /\
+  snd (fst (scan jsc enum (w ++ b)%list)) = ShiftProofs.she k (snd (fst (scan jsc enum b))).
+Proof. exact ShiftProofs.leading_blanks_shift_lemma. Qed.
+Print Assumptions leading_blanks_only_shift.
+
+(* "JSIGHT 0.3 / URL /a / GET" and the same with a line "space tab CR LF" inserted before GET: the premises of
+   blanks_only_shift_lexemes_run hold by computation (ShiftExample.premises, theorem_applies); GET moves from 18..20
+   to 22..24, the four lexemes before it stay *)
+Theorem blank_line_between_directives_shifts :
+  ShiftProofs.ShiftExample.spans (scan ShiftProofs.ShiftExample.o0 ShiftProofs.ShiftExample.o0
+                                       (ShiftProofs.ShiftExample.a ++ ShiftProofs.ShiftExample.b)%list) =
+    [(0, 5); (7, 9); (11, 13); (15, 16); (18, 20)] /\
+  ShiftProofs.ShiftExample.spans (scan ShiftProofs.ShiftExample.o0 ShiftProofs.ShiftExample.o0
+                                       (ShiftProofs.ShiftExample.a ++ ShiftProofs.ShiftExample.w ++ ShiftProofs.ShiftExample.b)%list) =
+    [(0, 5); (7, 9); (11, 13); (15, 16); (22, 24)] /\
+  ShiftProofs.verdict (scan ShiftProofs.ShiftExample.o0 ShiftProofs.ShiftExample.o0
+                            (ShiftProofs.ShiftExample.a ++ ShiftProofs.ShiftExample.b)%list) = SEof /\
+  ShiftProofs.verdict (scan ShiftProofs.ShiftExample.o0 ShiftProofs.ShiftExample.o0
+                            (ShiftProofs.ShiftExample.a ++ ShiftProofs.ShiftExample.w ++ ShiftProofs.ShiftExample.b)%list) = SEof.
+Proof. exact ShiftProofs.ShiftExample.blank_line_between_directives. Qed.
+Print Assumptions blank_line_between_directives_shifts.
